@@ -65,7 +65,8 @@ pub fn game_ending(
         return Some(GameEnding::Draw);
     }
 
-    if board.halfmove_clock() >= 50 {
+    // fifty moves by each side: the clock counts plies (halfmoves)
+    if board.halfmove_clock() >= 100 {
         return Some(GameEnding::Draw);
     }
 
